@@ -16,20 +16,21 @@ Proof. exact add_instr_special_flag. Qed.
 Print Assumptions C22_accepted_reports_special.
 
 (* PARTIAL: the full statement -- every accepted special injection outside a removed region occurs in the
-   emitted body -- is not proved for the resolution pass; it is false of the faithful model in the classes
-   D16, D19, D20 below, and is decided per (body, plan) by CheckLow.verdict22 on the real output. *)
+   emitted body -- is not proved for the resolution pass; it is false of the faithful model in the class
+   D16 below, and is decided per (body, plan) by CheckLow.verdict22 on the real output. *)
 
-(* D19: FunctionModifier::inject_at does not pass the "special" report on: nothing is resolved, the probe is lost *)
-Example C22_refuted_D19 :
+(* D19 and D20 were genuine defects of the pinned tree (FunctionModifier::inject_at did not record special modes;
+   after an import deletion the resolution loop started one function too late).  Both are repaired ("fix:"
+   commits in /repo); the former witnesses now satisfy the property: *)
+Example C22_former_D19_witness_holds :
   let c0 := mkCase 0 0 [] [] [] 0 [FBlock BtEmpty; FEnd; FEnd] [(0%nat, MBlockEntry, [FConst 1001; FDrop])] 3 false None true 0 in
-  let c := mkCase 0 0 [] [] [] 0 [FBlock BtEmpty; FEnd; FEnd] [(0%nat, MBlockEntry, [FConst 1001; FDrop])] 3 false (model c0) true 1 in
-  agree c = true /\ domain22 c = true /\ holds22 c = false /\ known_D19 c = true.
+  let c := mkCase 0 0 [] [] [] 0 [FBlock BtEmpty; FEnd; FEnd] [(0%nat, MBlockEntry, [FConst 1001; FDrop])] 3 false (model c0) true 0 in
+  agree c = true /\ domain22 c = true /\ holds22 c = true.
 Proof. vm_compute. repeat split; reflexivity. Qed.
-(* D20: after an import deletion the resolution loop starts one function too late *)
-Example C22_refuted_D20 :
+Example C22_former_D20_witness_holds :
   let c0 := mkCase 0 0 [] [] [] 0 [FBlock BtEmpty; FEnd; FEnd] [(0%nat, MBlockEntry, [FConst 1001; FDrop])] 0 true None true 0 in
-  let c := mkCase 0 0 [] [] [] 0 [FBlock BtEmpty; FEnd; FEnd] [(0%nat, MBlockEntry, [FConst 1001; FDrop])] 0 true (model c0) true 1 in
-  agree c = true /\ domain22 c = true /\ holds22 c = false /\ known_D20 c = true.
+  let c := mkCase 0 0 [] [] [] 0 [FBlock BtEmpty; FEnd; FEnd] [(0%nat, MBlockEntry, [FConst 1001; FDrop])] 0 true (model c0) true 0 in
+  agree c = true /\ domain22 c = true /\ holds22 c = true.
 Proof. vm_compute. repeat split; reflexivity. Qed.
 (* D16: semantic-after on an unconditional branch to the function label *)
 Example C22_refuted_D16 :
